@@ -88,12 +88,12 @@ pub fn structural(ty: &Ty, val: &Val, cap: usize, only_counts: bool, extra_xor: 
             && matches!(**t, Ty::U8)
             && !xs.is_empty()
         {
-            for k in pick_indices(xs.len(), 3) {
+            for k in pick_indices(xs.len(), if cap == usize::MAX { usize::MAX } else { 3 }) {
                 menu.push(NodeMut::XorByte(k));
             }
         }
         if let Ty::Raw(n) = nty {
-            for k in pick_indices(*n, 3) {
+            for k in pick_indices(*n, if cap == usize::MAX { usize::MAX } else { 3 }) {
                 menu.push(NodeMut::XorByte(k));
             }
         }
